@@ -356,8 +356,10 @@ def make_producer(which, N, mode):
             elif which == "delimited":
                 opt = bool(fresh_bool(c, "optional_delimiter"))
                 from sqlfluff.core.parser.grammar.delimited import OptionallyDelimited
-                g = (OptionallyDelimited if opt else Delimited)(e1, allow_trailing=bool(fresh_bool(c, "allow_trailing")),
-                                                                 min_delimiters=int(fresh_int(c, "min_delimiters", 0, 1)))
+                # at N >= 5 only the optional-delimiter fork is kept (the other two options multiply the space by 4)
+                trailing = bool(fresh_bool(c, "allow_trailing")) if N <= 4 else True
+                min_d = int(fresh_int(c, "min_delimiters", 0, 1)) if N <= 4 else 0
+                g = (OptionallyDelimited if opt else Delimited)(e1, allow_trailing=trailing, min_delimiters=min_d)
                 if opt:
                     c.witness("optional_delimiter")
             else:
@@ -457,7 +459,7 @@ def units(tier, seed):
              [(w, n, m) for w in ("sequence", "bracketed") for n in (4, 5) for m in ("STRICT", "GREEDY", "GREEDY_ONCE_STARTED")
               if not (w == "bracketed" and m == "GREEDY_ONCE_STARTED")]
              + [("anyof", 4, "STRICT"), ("anyof", 4, "GREEDY"), ("oneof", 4, "STRICT"), ("oneof", 4, "GREEDY"),
-                ("delimited", 5, "STRICT")])
+                ("delimited", 4, "STRICT"), ("delimited", 5, "STRICT")])
     for which, N, mode in prods:
         us.append(Unit(
             name=f"c02.producer[{which},{mode},N={N}]",
